@@ -243,7 +243,7 @@ pub fn run(args: &Args) -> Out {
     }
     match leg.as_str() {
         "histories" => {
-            let n = args.n(1_600, 48_000);
+            let n = args.n(16_000, 160_000);
             for idx in 0..n {
                 if args.mine(idx) {
                     run_history_case(args.seed, idx, args.thorough, &mut out);
@@ -251,7 +251,7 @@ pub fn run(args: &Args) -> Out {
             }
         }
         "filtered-delete" => {
-            let n = args.n(3_200, 96_000);
+            let n = args.n(32_000, 320_000);
             for idx in 0..n {
                 if args.mine(idx) {
                     run_delete_case(args.seed, idx, &mut out);
